@@ -66,6 +66,12 @@ def run(e: Engine, rep: Report):
     rep.rule('F2', 'appends minus wire commands is 0 on every normal path '
              '(1 for get_banner/get_reply; LMTP data: one append per '
              'accepted recipient, one transmission)')
+    rep.rule('F16', 'a command method is one command: on no path does a '
+             'method of Client / LmtpClient (other than the multi-step '
+             'auth) put a second command on the wire - the caller gets one '
+             'Reply per call, so a built-in fallback (EHLO refused: HELO) '
+             'hands back the wrong command\'s answer under the first '
+             'command\'s name and shifts the pairing')
     rep.rule('F3', 'flush discipline of non-pipelinable and pipelinable '
              'commands and of auth()')
     rep.rule('F4', '_flush_pipeline: flush_send, then {pop(0); one '
@@ -297,6 +303,29 @@ def f2_f3(e: Engine, rep: Report):
                           % (mname, sorted(st), want), loc=ctx.func.loc(),
                           reason='appends - commands == %d on every path'
                           % want, witness=w)
+                # one command per call (F16)
+                if mname != 'auth':
+                    def wstep(n, label, st):
+                        return min(3, st + 1) if n in wires else st
+                    WIN = dataflow.typestate(g, 0, wstep)
+                    wst = WIN.get(g.exit.id) or frozenset()
+                    w2 = None
+                    if any(x > 1 for x in wst):
+                        pth = dataflow.typestate_witness(
+                            g, 0, wstep, lambda n, x: n is g.exit and x > 1)
+                        w2 = dataflow.render_path(pth) if pth else None
+                    rep.check(not any(x > 1 for x in wst), 'F16', where,
+                              'at most one command per call',
+                              'on some path %s sends %d commands in one '
+                              'call (a fallback, a retry): the Reply it '
+                              'returns - still labelled with the first '
+                              'command - holds the answer to the last one, '
+                              'the server\'s answer to the first is lost, '
+                              'and a peer that answers once per call of the '
+                              'method is read one reply too far'
+                              % (mname, max(wst) if wst else 0),
+                              loc=ctx.func.loc(), reason='commands sent on '
+                              'any path: %s' % sorted(wst), witness=w2)
                 # the Reply is queued before its command goes out
                 before = dataflow.must_events_before(
                     g, lambda n: ['app'] if n in apps else [])
